@@ -3,6 +3,8 @@ import copy
 import math
 import random
 
+from hypothesis import strategies as st
+
 from pbt import gen
 from pbt.engine import Outcome, Violation
 from pbt.harness import Session, algo_label
@@ -16,7 +18,8 @@ RULE = (
     "touched; the learner list only grows and earlier entries keep their identity; every learner was built with nu_max and a rho = "
     "rho_max^(2N/(2i+1)), N a power of two, 0 <= i < N, in (0, rho_max), pairwise distinct; after every round V_reward[j] equals the "
     "fsum mean of learner j's ledger (rel 1e-9) and Times[j] its length; get_last_point() asks exactly one learner, one of maximal "
-    "score, and returns its proposal. non-trivial = >= 3 learners, a complete round-robin pass over all learners, non-constant "
+    "score, and returns its proposal - at the end of the run and, in half of the cases, at Hypothesis-chosen rounds in between (the "
+    "rounds that follow are judged as before). non-trivial = >= 3 learners, a complete round-robin pass over all learners, non-constant "
     "rewards; distinct = SHA-1 of the case."
 )
 ASSUMPTIONS = [
@@ -132,7 +135,17 @@ def check_real(case):
                 s.construct()
             except Exception as e:  # noqa: BLE001
                 return Outcome(aborted="exception:" + type(e).__name__, classes=classes)
+            queries = set(case.get("queries", []))
             for t in range(1, T + 1):
+                if t in queries and t > 1:
+                    # "at every moment ... get_last_point is the next proposal of a best-scored learner":
+                    # query between rounds, judge the query, and keep judging the rounds that follow
+                    n0 = len(s.learner_calls)
+                    try:
+                        lp = s.last_point()
+                    except Exception as e:  # noqa: BLE001
+                        return Outcome(aborted="last-point-exception:" + type(e).__name__, classes=classes, rounds=t - 1)
+                    J.last_point(t - 1, s.learners, s.learner_calls[n0:], lp)
                 n0 = len(s.learner_calls)
                 try:
                     pt, r = s.step()
@@ -250,13 +263,21 @@ def simplify(case):
         yield c
 
 
+@st.composite
+def real_cases(draw, tier):
+    quick = tier == "quick"
+    c = draw(gen.run_case(names=["POO"], poo_ok_only=True, n_range=(100, 600) if quick else (100, 3000),
+                          script_prob=0.2, full_T_prob=0.5, T_min=20, T_max=600 if quick else 3000,
+                          laws=["noise", "peak", "negative", "ties", "large", "bump", "ramp", "const"]))
+    if draw(st.booleans()):
+        c["queries"] = sorted(set(draw(st.lists(st.integers(2, max(2, c["T"])), min_size=1, max_size=12))))
+    return c
+
+
 def run_shard(ctx):
     quick = ctx.tier == "quick"
     cases = stub_cases(ctx.tier)
     ctx.enumerate("schedule", cases, check_case,
                   exhaustive_note="POO schedule with stub learners on a grid of %d rho_max values in [0.84, 0.999], %d rounds each"
                   % (len(cases), cases[0]["T"]))
-    ctx.drive("real", gen.run_case(names=["POO"], poo_ok_only=True, n_range=(100, 600) if quick else (100, 3000),
-                                   script_prob=0.2, full_T_prob=0.5, T_min=20, T_max=600 if quick else 3000,
-                                   laws=["noise", "peak", "negative", "ties", "large", "bump", "ramp", "const"]),
-              check_case, ctx.budget(3000, 20000))
+    ctx.drive("real", real_cases(ctx.tier), check_case, ctx.budget(3000, 20000))
